@@ -343,15 +343,22 @@ def main(tier: str) -> int:
 
     # ---- 2. histories ------------------------------------------------------------------
     if tier == 'quick':
-        n_hist, n_sim, fs_every, other_n = 14, 400, 3, 3
+        n_hist, n_sim, fs_every, other_n = 14, 240, 3, 3
     else:
-        n_hist, n_sim, fs_every, other_n = 200, 4000, 1, None
+        n_hist, n_sim, fs_every, other_n = 200, 3000, 1, None
     cands, seen_h = [], set()
     sim_stats = []
     try:
-        for cfgname in ('MaildirStore_sim.cfg', 'MaildirStore_sim_box.cfg'):
-            behs, sres = tlc.simulate('MaildirStore.tla', cfgname, num=n_sim // 2, depth=220,
-                                      seed=run.seed * 7919 + 17)
+        simcfgs = ('MaildirStore_sim.cfg', 'MaildirStore_sim_box.cfg')
+        nthreads = 2 if tier == 'quick' else 6
+        parts = []
+        for ci, cfgname in enumerate(simcfgs):
+            for part in range(nthreads // 2):
+                parts.append((cfgname, n_sim // nthreads, run.seed * 7919 + 17 + 101 * part))
+        with cf.ThreadPoolExecutor(max_workers=nthreads) as ex:
+            sims = list(ex.map(lambda a: tlc.simulate('MaildirStore.tla', a[0], num=a[1], depth=220,
+                                                      seed=a[2]), parts))
+        for (cfgname, _n, _s), (behs, sres) in zip(parts, sims):
             sim_stats.append({'cfg': cfgname, 'behaviours': len(behs), 'ok': sres.ok})
             if not behs:
                 run.machinery(f'no behaviours from {cfgname}: ' + (sres.error or sres.output[-600:]))
